@@ -408,3 +408,47 @@ theorem run_inv (o : O) (prog : List (Env × Op)) (h : Inv B S o) : Inv B S (run
   | cons p rest ih => exact ih _ (step_inv p.1 o p.2 h)
 
 end Own
+
+namespace Own
+/-- releaseResponse really returns what the response held: those buffers are dead afterwards -/
+theorem release_dead {B : Nat} {S : Nat → Bool} (o : O) (h : Inv B S o) :
+    (∀ id n, o.buffer = some (id, n) → (release o).heap.live id = false) ∧
+    (∀ id n, o.bodyBuffer = some (id, n) → (release o).heap.live id = false) := by
+  obtain ⟨h1, h2, h3, h4, h5, h6, h7, h8, h9⟩ := h
+  unfold release releaseBuf releaseBody O.free
+  constructor
+  · intro id n hb
+    have hl := h3 id n hb
+    rw [hb]
+    dsimp only
+    cases hbb : o.bodyBuffer with
+    | none => simp [Heap.free_live_at _ _ _ hl]
+    | some p =>
+      obtain ⟨b, m⟩ := p
+      have hne := h5 id n b m hb hbb
+      have hlb := h4 b m hbb
+      have hlb' : (o.heap.free id).live b = true := by
+        rw [Heap.free_live_at _ _ _ hl]; simp [hlb, Ne.symm hne]
+      dsimp only
+      rw [Heap.free_live_at _ _ _ hlb', Heap.free_live_at _ _ _ hl]
+      simp
+  · intro id n hbb
+    have hl := h4 id n hbb
+    cases hb : o.buffer with
+    | none =>
+      dsimp only
+      rw [hbb]
+      dsimp only
+      simp [Heap.free_live_at _ _ _ hl]
+    | some p =>
+      obtain ⟨a, m⟩ := p
+      have hne := h5 a m id n hb hbb
+      have hla := h3 a m hb
+      have hl' : (o.heap.free a).live id = true := by
+        rw [Heap.free_live_at _ _ _ hla]; simp [hl, Ne.symm hne]
+      dsimp only
+      rw [hbb]
+      dsimp only
+      rw [Heap.free_live_at _ _ _ hl']
+      simp
+end Own
